@@ -470,6 +470,8 @@ static RunOutcome check_crash(const std::string &prop, const Plan &P, int tier) 
             ++out.evaluations;
             size_t viol_before = all.size();
             if (g_progress) { int fo = k < mut.size() ? log[mut[k]].op : -4, fwi = 0; if (k < mut.size()) for (size_t z = 0; z < k; ++z) if (log[mut[z]].op == log[mut[k]].op) ++fwi; g_progress(fo, fwi, (int64_t) b, (int64_t) k, ""); }
+            // a stop in the middle of an in-place rewrite (chunk header link, head table, file header) damages an older chunk: separate family
+            bool torn_inplace = b > 0 && k < mut.size() && log[mut[k]].kind == W_WRITE && log[mut[k]].off + log[mut[k]].len <= log[mut[k]].size_before;
             IsoOut iso = isolate([&](Violations &lv, RunOutcome &lo) {
             // submitted model: ops that had started when write k was (or would have been) issued
             int cur_op = k < mut.size() ? log[mut[k]].op : (int) P.ops.size();
@@ -538,6 +540,7 @@ static RunOutcome check_crash(const std::string &prop, const Plan &P, int tier) 
                 add_violation(lv, "C03", "boundary_open_failed", where + fmt(": jls_rd_open returned %d although the stop is between two writes and every definition is on disk (writer was in op %d %s)", d1.open_rc, cur_op, cur_op >= 0 && cur_op < (int) P.ops.size() ? op_names[P.ops[cur_op].kind] : "-"));
             }
             });
+            if (torn_inplace) { for (auto &v : iso.v) if (v.prop == "C19") v.cls = "torn_inplace_" + v.cls; out.ctr["images_torn_inplace"]++; }
             { std::map<std::string, int> per; for (auto &x : all) per[x.prop + x.cls]++; for (auto &v : iso.v) if (all.size() < 200 && per[v.prop + v.cls]++ < 3) all.push_back(v); }
             for (auto &kv : iso.o.ctr) out.ctr[kv.first] += kv.second;
             out.nontrivial_units += iso.o.nontrivial_units; for (uint64_t u : iso.o.unit_hashes) out.unit_hashes.push_back(u);
